@@ -1666,3 +1666,198 @@ func sameAccessPath(a, b ssa.Value, d int) bool {
 	}
 	return false
 }
+
+// ---------------------------------------------------------------------------
+// binaryOperatorsStepOverNewlines: a line may be broken after a binary
+// operator.  Every parse function that builds a binary node (Infix, In, NotIn,
+// Pipe) steps over NEWLINE tokens, in a loop, between the operator and the
+// expression it parses as the right operand.
+func binaryOperatorsStepOverNewlines(c *core.Ctx) {
+	p := c.P
+	pp := p.Pkg("parser")
+	info := pp.TypesInfo
+	parserT := core.MustType(pp, "Parser")
+	binary := map[string]bool{"NewInfix": true, "NewIn": true, "NewNotIn": true, "NewPipe": true}
+	n := 0
+	for _, m := range core.Methods(parserT) {
+		fd := p.Decl(m)
+		if fd == nil || fd.Body == nil {
+			continue
+		}
+		builds := ""
+		ast.Inspect(fd.Body, func(nd ast.Node) bool {
+			if call, ok := nd.(*ast.CallExpr); ok {
+				if fn := calleeOf(info, call); fn != nil && fn.Pkg() != nil && core.RelPkg(fn.Pkg()) == "ast" && binary[fn.Name()] {
+					builds = fn.Name()
+				}
+			}
+			return true
+		})
+		if builds == "" {
+			continue
+		}
+		n++
+		// a for loop whose condition tests for NEWLINE and whose body advances, before a parseExpression/parseNode call
+		loopPos, parsePos := token.NoPos, token.NoPos
+		ast.Inspect(fd.Body, func(nd ast.Node) bool {
+			switch x := nd.(type) {
+			case *ast.ForStmt:
+				isNL := false
+				if x.Cond != nil {
+					ast.Inspect(x.Cond, func(n2 ast.Node) bool {
+						if id, ok := n2.(*ast.SelectorExpr); ok {
+							if cst, _ := info.Uses[id.Sel].(*types.Const); cst != nil && cst.Name() == "NEWLINE" {
+								isNL = true
+							}
+						}
+						return true
+					})
+				}
+				if isNL && loopPos == token.NoPos {
+					loopPos = x.Pos()
+				}
+			case *ast.CallExpr:
+				if fn := calleeOf(info, x); fn != nil && (fn.Name() == "parseExpression" || fn.Name() == "parseNode") && parsePos == token.NoPos {
+					parsePos = x.Pos()
+				}
+				// the helper form: a method whose body is such a loop
+				if fn := calleeOf(info, x); fn != nil && loopPos == token.NoPos && fn != m {
+					if hd := p.Decl(fn); hd != nil && hd.Body != nil && len(hd.Body.List) <= 2 && core.RecvNamed(fn) == parserT {
+						ast.Inspect(hd.Body, func(n2 ast.Node) bool {
+							if fs, ok := n2.(*ast.ForStmt); ok && fs.Cond != nil {
+								ast.Inspect(fs.Cond, func(n3 ast.Node) bool {
+									if id, ok := n3.(*ast.SelectorExpr); ok {
+										if cst, _ := info.Uses[id.Sel].(*types.Const); cst != nil && cst.Name() == "NEWLINE" {
+											loopPos = x.Pos()
+										}
+									}
+									return true
+								})
+							}
+							return true
+						})
+					}
+				}
+			}
+			return true
+		})
+		ok := loopPos != token.NoPos && parsePos != token.NoPos && loopPos < parsePos
+		c.Check(ok, "parser."+m.Name()+"|newlines-stepped-over-after-the-operator", posOf(p, fd),
+			m.Name()+" builds a binary node (ast."+builds+") and "+ife(ok, "steps over line breaks in a loop before it parses the right operand", "parses the right operand without stepping over line breaks after the operator first: `1 in` newline `[1]` is a syntax error while `1 ==` newline `1` parses"))
+	}
+	if n < 3 {
+		core.Undecidedf("only %d parse functions build binary nodes", n)
+	}
+	c.Stat("binary_node_parsers", n)
+}
+
+// ---------------------------------------------------------------------------
+// closersAreExpectedAfterTheNewlines: a parse function that reads a
+// comma-separated sequence up to a closing bracket lets the last element be
+// followed by a line break: the statement before its final expectPeek(closer)
+// is a loop that steps over NEWLINE tokens.  The list, call and map parsers do
+// this; a sibling that does not rejects
+//     {1,
+//      2
+//     }
+// although the same layout is accepted for a list and a map.
+func closersAreExpectedAfterTheNewlines(c *core.Ctx) {
+	p := c.P
+	pp := p.Pkg("parser")
+	info := pp.TypesInfo
+	parserT := core.MustType(pp, "Parser")
+	closers := map[string]bool{"RBRACE": true, "RBRACKET": true, "RPAREN": true}
+	isNLLoop := func(s ast.Stmt) bool {
+		fs, ok := s.(*ast.ForStmt)
+		if !ok || fs.Cond == nil {
+			if es, ok := s.(*ast.ExprStmt); ok {
+				if call, ok := es.X.(*ast.CallExpr); ok {
+					if fn := calleeOf(info, call); fn != nil && fn.Name() == "eatNewlines" {
+						return true
+					}
+				}
+			}
+			return false
+		}
+		found := false
+		ast.Inspect(fs.Cond, func(n ast.Node) bool {
+			if id, ok := n.(*ast.SelectorExpr); ok {
+				if cst, _ := info.Uses[id.Sel].(*types.Const); cst != nil && cst.Name() == "NEWLINE" {
+					found = true
+				}
+			}
+			return true
+		})
+		return found
+	}
+	n := 0
+	for _, m := range core.Methods(parserT) {
+		fd := p.Decl(m)
+		if fd == nil || fd.Body == nil {
+			continue
+		}
+		// only sequence parsers: they test for a comma somewhere
+		commas := false
+		ast.Inspect(fd.Body, func(nd ast.Node) bool {
+			if id, ok := nd.(*ast.SelectorExpr); ok {
+				if cst, _ := info.Uses[id.Sel].(*types.Const); cst != nil && cst.Name() == "COMMA" {
+					commas = true
+				}
+			}
+			return true
+		})
+		if !commas {
+			continue
+		}
+		k := 0
+		var visit func(list []ast.Stmt)
+		visit = func(list []ast.Stmt) {
+			for i, s := range list {
+				// if !p.expectPeek("...", token.CLOSER) { return nil }
+				if is, ok := s.(*ast.IfStmt); ok && is.Init == nil {
+					if un, ok := ast.Unparen(is.Cond).(*ast.UnaryExpr); ok && un.Op == token.NOT {
+						if call, ok := ast.Unparen(un.X).(*ast.CallExpr); ok && len(call.Args) == 2 {
+							if fn := calleeOf(info, call); fn != nil && fn.Name() == "expectPeek" {
+								closer := ""
+								if sel, ok := call.Args[1].(*ast.SelectorExpr); ok {
+									if cst, _ := info.Uses[sel.Sel].(*types.Const); cst != nil && closers[cst.Name()] {
+										closer = cst.Name()
+									}
+								}
+								if id, ok := call.Args[1].(*ast.Ident); ok {
+									// the closer is a parameter (parseExprList(end))
+									if _, isVar := info.Uses[id].(*types.Var); isVar {
+										closer = id.Name
+									}
+								}
+								// only the closer that ends a sequence: an element was parsed before it in this list
+								if closer != "" && i > 0 {
+									k++
+									n++
+									ok2 := isNLLoop(list[i-1])
+									c.Check(ok2, "parser."+m.Name()+"|closer-expected-after-the-newlines|"+sprintf("%s#%d", closer, k), p.Pos(is.Pos()),
+										m.Name()+" expects the closing "+closer+" of a comma-separated sequence "+ife(ok2, "after a loop that steps over line breaks", "without stepping over line breaks first: the last element cannot be followed by a line break, which the list, call and map parsers accept"))
+								}
+							}
+						}
+					}
+				}
+				// nested statement lists
+				switch x := s.(type) {
+				case *ast.IfStmt:
+					visit(x.Body.List)
+					if eb, ok := x.Else.(*ast.BlockStmt); ok {
+						visit(eb.List)
+					}
+				case *ast.BlockStmt:
+					visit(x.List)
+				}
+			}
+		}
+		visit(fd.Body.List)
+	}
+	if n < 3 {
+		core.Undecidedf("only %d closing tokens of sequences found", n)
+	}
+	c.Stat("sequence_closers", n)
+}
